@@ -123,6 +123,20 @@ pub fn run_case(s: &str) -> Result<Vec<(String, String)>, String> {
 }
 
 pub fn check(c: &Case) -> Vec<(String, String)> {
+    // C20: no call panics (the crate is built with overflow checks, so an arithmetic overflow is a panic)
+    let prev = std::panic::take_hook();
+    let msg = std::sync::Arc::new(std::sync::Mutex::new(String::new()));
+    let m2 = msg.clone();
+    std::panic::set_hook(Box::new(move |info| { *m2.lock().unwrap() = info.to_string(); }));
+    let r = std::panic::catch_unwind(std::panic::AssertUnwindSafe(|| check_inner(c)));
+    std::panic::set_hook(prev);
+    match r {
+        Ok(f) => f,
+        Err(_) => vec![("C20".to_string(), format!("a write/flush/drop of the line writer panicked: {}", msg.lock().unwrap().replace('\n', " ")))],
+    }
+}
+
+fn check_inner(c: &Case) -> Vec<(String, String)> {
     let mut fails: Vec<(String, String)> = vec![];
     // a framing/conservation failure in a history that already contains a socket failure is also a C07 violation
     let faulted = std::cell::Cell::new(false);
@@ -303,13 +317,18 @@ pub fn search(prop: &str, seed: u64, budget: u64) -> Option<(String, Vec<(String
     let mut rng = Rng::new(seed);
     let ends: [&[u8]; 3] = [b"\n", b"\r\n", b"\r\n\t"];
     for _ in 0..budget {
-        let cap = rng.below(14) as usize;
+        // mostly tiny capacities (every boundary is reached within a few operations); one case in 16
+        // uses a capacity beyond the standard library's default buffer size
+        let large = rng.below(16) == 0;
+        let cap = if large { 8192 + rng.below(3000) as usize } else { rng.below(14) as usize };
         let end = ends[rng.below(3) as usize].to_vec();
         let nops = 1 + rng.below(6) as usize;
         let mut ops = vec![];
         for _ in 0..nops {
             if rng.below(4) == 0 {
                 ops.push(Op::F)
+            } else if large {
+                ops.push(Op::W(rng.below(cap as u64 / 2) as usize))
             } else {
                 ops.push(Op::W(rng.below(cap as u64 + 3) as usize))
             }
